@@ -13,9 +13,14 @@ pub fn keyfn(f: &Finding, p: &Program, o: &Outcome) -> Option<String> {
 pub fn spec(tier: Tier) -> RelSpec {
     let mk = |depth, sources: Vec<SrcKind>, max_joins| GenCfg { depth, sources, max_joins, letters: Letters::Order };
     let cfgs = match tier {
-        Tier::Quick => vec![mk(3, vec![SrcKind::OpenT, SrcKind::LetSorted, SrcKind::SubClosed], 1), mk(2, vec![SrcKind::LetSortedTwoReaders], 1)],
+        Tier::Quick => vec![
+            mk(3, vec![SrcKind::OpenT, SrcKind::LetSorted, SrcKind::SubClosed], 1),
+            mk(2, vec![SrcKind::LetSortedTwoReaders], 1),
+            // sort / join / take / group interplay at depth 4 over a 9-letter alphabet
+            GenCfg { depth: 4, sources: vec![SrcKind::OpenT, SrcKind::LetClosed], max_joins: 1, letters: Letters::OrderSplit },
+        ],
         // depth 4 meets further untriaged defect causes (DESIGN §9.3): thorough widens sources and instances instead
-        Tier::Thorough => vec![mk(3, vec![SrcKind::OpenT, SrcKind::LetSorted, SrcKind::SubClosed, SrcKind::Literal, SrcKind::LetClosed], 1), mk(3, vec![SrcKind::LetSortedTwoReaders], 1)],
+        Tier::Thorough => vec![mk(3, vec![SrcKind::OpenT, SrcKind::LetSorted, SrcKind::SubClosed, SrcKind::Literal, SrcKind::LetClosed], 1), mk(3, vec![SrcKind::LetSortedTwoReaders], 1), GenCfg { depth: 5, sources: vec![SrcKind::OpenT, SrcKind::LetClosed, SrcKind::LetSorted], max_joins: 1, letters: Letters::OrderSplit }],
     };
     RelSpec {
         property: "C03",
